@@ -220,7 +220,34 @@ def make_subclasses():
             """Upper-case info."""
             return "INFO"
 
-    return SubA, SubB, SubC
+    class Mixin:
+        """Public members contributed by a mix-in class (found through the MRO)."""
+
+        def mixedIn(self, times: int = 1) -> str:    # noqa: N802
+            """From the mix-in."""
+            return "mixed" * times
+
+        @property
+        def mixed_prop(self) -> int:
+            """A mix-in property."""
+            return 11
+
+    class SubD(Mixin, SimpleTaskPool):
+        """Members that are not plain instance methods: a public static method (a plain function
+        for `inspect.getmembers`, hence a command), a method
+        overridden in the subclass, members inherited from a mix-in.  Used for C16 only (whether a
+        static method can be *called* through the control interface is not part of C16)."""
+
+        @staticmethod
+        def api_version() -> str:
+            """A static method."""
+            return "v1"
+
+        def lock(self) -> None:
+            """Overridden."""
+            super().lock()
+
+    return SubA, SubB, SubC, SubD
 
 
 def new_pool(cls, size=3):
